@@ -159,6 +159,7 @@ func doCall(obj *object, ctxPlain, ctxH context.Context, sp spec, specIdx, run i
 	out := &callOut{rc: rc}
 	out.t0 = int64(sinceBase())
 	raw := guarded(func() string { return obj.call(ctx, rc, sp) })
+	rc.freeze()
 	out.t1 = int64(sinceBase())
 	out.res = rc.canon(raw)
 	return out
@@ -333,7 +334,11 @@ func (engine) Run(ci any) lib.Result {
 		b := doCall(obj, ctxPlain, ctxH, sp, i, -1, next())
 		soloRes[i], soloEv[i] = a.res, a.rc.eventNames()
 		if a.res != b.res || strings.Join(soloEv[i], "\x00") != strings.Join(b.rc.eventNames(), "\x00") {
-			fail("solo-nondeterministic", fmt.Sprintf("spec %s: two solo runs differ: %q vs %q", sp, clip(a.res), clip(b.res)))
+			if a.res != b.res {
+				fail("solo-nondeterministic", fmt.Sprintf("spec %s: two solo runs differ: %q vs %q", sp, clip(a.res), clip(b.res)))
+			} else {
+				fail("solo-nondeterministic", fmt.Sprintf("spec %s: two solo runs returned %q with different events: %s", sp, clip(a.res), evDiff(soloEv[i], b.rc.eventNames())))
+			}
 		}
 		for _, o := range []*callOut{a, b} {
 			for _, v := range o.rc.viol {
@@ -483,7 +488,11 @@ func (engine) Run(ci any) lib.Result {
 	for j, o := range outs {
 		runT = append(runT, lib.CoqPair(lib.CoqNat(assign[j]), lib.CoqNat(intern(o.res, proj(o.rc.eventNames())))))
 		o.rc.mu.Lock()
-		for _, e := range o.rc.events {
+		evs := o.rc.events
+		if o.rc.frozen < len(evs) {
+			evs = evs[:o.rc.frozen]
+		}
+		for _, e := range evs {
 			if !modelled || coreEvent(e.name) {
 				glob = append(glob, gev{e.ts, j})
 			}
